@@ -15,3 +15,15 @@ func (s *SessionState) VerifSessionID() []byte { return s.sessionId }
 
 // VerifMaster returns the master secret slice (not a copy).
 func (s *SessionState) VerifMaster() []byte { return s.masterSecret }
+
+// VerifReplayWindow wraps the unexported anti-replay window.
+type VerifReplayWindow struct{ w *replayWindow }
+
+// VerifNewReplayWindow builds the window a connection with Config.ReplayWindow = cfg uses.
+func VerifNewReplayWindow(cfg int) *VerifReplayWindow {
+	c := Server(nil, nil, &Config{ReplayWindow: cfg})
+	return &VerifReplayWindow{c.replayWindow}
+}
+
+// Check feeds one sequence number.
+func (v *VerifReplayWindow) Check(seq uint64) bool { return v.w.check(uint48(seq)) }
